@@ -312,6 +312,7 @@ class Runner:
         self.keyof = {id(p): 2 * i for i, p in enumerate(self.plain)}
         self.steps = []
         self.failed = False
+        self.failures = []
         self.nontrivial = False
 
     # -- helpers
@@ -327,7 +328,7 @@ class Runner:
 
     def fail(self, what, key):
         self.failed = True
-        self.ctx.oracle_failure(f'{what} :: {json.dumps(self.case)}', self.case, key=key)
+        self.failures.append((what, key))
 
     def observe(self, g):
         '''canonical node list / edge list of a real graph, through __iter__'''
@@ -739,8 +740,41 @@ def gen_cases(ctx):
     return cases
 
 
-def shrink(ctx_factory, case):
-    return case
+class Probe:
+    '''stand-in for the context while shrinking'''
+    tier = 'quick'
+
+    def count(self, *args, **kwargs):
+        pass
+
+
+def fails_with(case, key):
+    runner = Runner(Probe(), case).run()
+    return [w for w, k in runner.failures if k == key]
+
+
+def shrink(case, key):
+    '''greedy: drop operations while the same failure remains'''
+    cur = list(case)
+    changed = True
+    budget = 400
+    while changed and budget > 0:
+        changed = False
+        for i in range(len(cur) - 1, -1, -1):
+            if cur[i][0] == 'new' and i == 0:
+                continue
+            trial = cur[:i] + cur[i + 1:]
+            budget -= 1
+            try:
+                ok = bool(trial) and fails_with(trial, key)
+            except Exception:  # noqa
+                ok = False
+            if ok:
+                cur = trial
+                changed = True
+            if budget <= 0:
+                break
+    return cur
 
 
 def run(ctx):
@@ -752,9 +786,18 @@ def run(ctx):
                 'flatten; distinct by op list')
     cases = gen_cases(ctx)
     items = []
+    reported = {}
     for case in cases:
         runner = Runner(ctx, case).run()
         ctx.case_seen(case, runner.nontrivial, sample_every=1999)
+        for what, key in runner.failures:
+            small = case
+            if reported.get(key, 0) < 2:          # shrink the first failures of each kind
+                small = shrink(case, key)
+                again = fails_with(small, key)
+                what = again[0] if again else what
+            reported[key] = reported.get(key, 0) + 1
+            ctx.oracle_failure(f'{what} :: {json.dumps(small)}', small, key=key)
         ctx.count('steps_compared_with_model', len(runner.steps))
         items.append((case, runner.steps))
     shard_size = 100 if ctx.tier == 'quick' else 400
@@ -792,6 +835,6 @@ def replay(ctx, path):
     body = ('Eval vm_compute in check_case [' + ';\n '.join(runner.steps) + '].')
     print('model agrees with the implementation on every step:',
           common.coq_eval(ctx.pid, IMPORTS, [body])[0].strip())
-    for v in ctx.violations:
-        print('oracle:', v[1].split(' :: ')[0])
+    for what, key in runner.failures:
+        print('oracle:', what)
     return 0
